@@ -1,6 +1,6 @@
 From Coq Require Import Sorting.Sorted.
 From Stam Require Import Base.Tac Model.Offset Model.Store Model.StoreObs Spec.StoreSpec
-     Proofs.StoreScan Proofs.StoreInv Proofs.StoreDataDef Proofs.StoreRemove Proofs.StoreData Proofs.StoreStable Props.C01.
+     Proofs.StoreScan Proofs.StoreInv Proofs.StoreDataDef Proofs.StoreRemove Proofs.StoreData Proofs.StoreStable Model.Compress Proofs.Compress Proofs.StoreSel Props.C01.
 Check (C01_index_invariant : forall ops, Inv (run ops)).
 Check (C01_textselection_annotations : forall ops r t, m_ts_anns (run ops) r t = s_ts_anns (run ops) r t).
 Check (C01_annotation_annotations : forall ops a, m_ann_anns (run ops) a = s_ann_anns (run ops) a).
@@ -12,6 +12,14 @@ Check (C01_data_metadata : forall ops d x, m_data_meta (run ops) d x = s_data_me
 Check (C01_data_annotations : forall ops d x, m_data_anns (run ops) d x = s_data_anns (run ops) d x).
 Check (C01_chronological_no_duplicates : forall s P, StronglySorted lt (scan s P)).
 Check (C01_scan_exact : forall s P h, In h (scan s P) <-> exists a, get_ann s h = Some a /\ P a = true).
+Check (C01_compression_lossless : forall wh own l, Forall (Pown wh own) l -> expand own (compress wh l) = l).
+Check (C01_text_selections_interned : forall ops r rs, get_res (run ops) r = Some rs -> NoDup (r_sels rs)).
+Check (C01_compressed_target_roundtrip : forall ops b ops' tb s1 k l h a',
+  ab_target b = Some tb -> resolve_target (run ops) tb = (s1, Some (k, l)) ->
+  snd (annotate (run ops) b) = OOk h -> h = length (anns (run ops)) ->
+  let s_now := run (ops ++ Annotate b :: ops') in
+  get_ann s_now h = Some a' ->
+  a_kind a' = k /\ a_leaves a' = l /\ seen s1 s_now l = l).
 Print Assumptions C01_index_invariant.
 Print Assumptions C01_textselection_annotations.
 Print Assumptions C01_annotation_annotations.
@@ -25,3 +33,6 @@ Print Assumptions C01_chronological_no_duplicates.
 Print Assumptions C01_scan_exact.
 Print Assumptions C01_targets_older.
 Print Assumptions C01_targets_never_change.
+Print Assumptions C01_compression_lossless.
+Print Assumptions C01_text_selections_interned.
+Print Assumptions C01_compressed_target_roundtrip.
